@@ -6,6 +6,9 @@ R35a in AggregatedErrorLog.aggregate_with every path through the loop body accou
      entry). Any other path drops an entry.
 R35b the merge branch is taken only for equal message and severity, and takes the entry's (later)
      time; a fresh entry starts with occurrences == 1 and becomes the new `latest`.
+R35c faithful copy: AggregatedErrorLogEntry.from_entry builds the aggregated entry with message, created_time and severity taken
+     from the entry unmodified (each keyword is `<entry>.<same field>`): the merge loop orders later entries against the
+     stored time, so a rounded or shifted copy makes later repeats look like earlier duplicates and they are dropped.
 Decides the loop structure for all entry sequences; does not decide what the engine logs.
 """
 from __future__ import annotations
@@ -140,3 +143,22 @@ def run(ctx) -> None:
             ctx.ok("R35b", inst)
         else:
             ctx.fail("R35b", f, n.ast, inst, "the next repeat would be compared with a stale `latest` entry")
+
+    # ---- R35c
+    ctx.rule("R35c", "the aggregated entry copies message, time and severity unmodified")
+    fe = prog.func("openpectus.aggregator.models:AggregatedErrorLogEntry.from_entry")
+    ctx.analysed(fe)
+    epar = [a.arg for a in fe.node.args.args if a.arg not in ("self", "cls")][0]
+    ctor = [c for c in walk_no_nested(fe.node) if isinstance(c, ast.Call) and isinstance(c.func, ast.Name) and c.func.id == "AggregatedErrorLogEntry"]
+    if len(ctor) != 1:
+        raise AnchorError("from_entry: construction of AggregatedErrorLogEntry not found")
+    kws = {k.arg: k.value for k in ctor[0].keywords if k.arg}
+    for fld in ("message", "created_time", "severity"):
+        inst = f"from_entry: {fld} copied from the entry unmodified"
+        v = kws.get(fld)
+        if v is not None and norm(v) == f"{epar}.{fld}":
+            ctx.ok("R35c", inst)
+        else:
+            ctx.fail("R35c", fe, v if v is not None else ctor[0], inst, f"{fld} of the aggregated entry is `{norm(v) if v is not None else 'missing'}`, not the "
+                     "entry's own value: the merge loop compares later entries with the stored value, so repeats that are later than the "
+                     "entry but not later than the altered copy are treated as redelivered duplicates and dropped")
